@@ -282,7 +282,11 @@ class Paraxial:
         max_field = self.optic.fields.max_y_field
 
         if self.optic.field_type == 'object_height':
-            u1 = 0.1 * max_field / y[-1]
+            # the object surface only records the ray: carry it on from the
+            # first surface to the object plane to find its height there
+            z_inv = surfaces.positions
+            y_obj = y[-1] + u[-1] * (z_inv[-1] - z_inv[-2])
+            u1 = 0.1 * max_field / y_obj
         elif self.optic.field_type == 'angle':
             u1 = 0.1 * np.tan(np.deg2rad(max_field)) / u[-1]
 
